@@ -1326,6 +1326,19 @@ def run_plan_history(name, scratch):
         ls = _listing(root)
         ev.append(("extract_listing", phase, _files_digest(ls), _per_file(ls)))
         shutil.rmtree(root, ignore_errors=True)
+    # a plan that grows after its digest / archive were taken: the digest and the archive always describe the files
+    # the plan holds NOW (compared with a freshly prepared plan that received the same file before any digest call)
+    extra = ("zz_note.txt", "added after the digest was taken\n")
+    plans[0].add_file(*extra)
+    plat, top = mk()
+    p3 = plat.build(top, do_build=False)
+    p3.add_file(*extra)
+    for phase, p in (("digest_then_add", plans[0]), ("add_only", p3)):
+        ev.append(("plan_files_extended", phase, _files_digest(p.files), _per_file(p.files)))
+        ev.append(("plan_digest_extended", phase, p.digest().hex(), None))
+        buf = _io.BytesIO()
+        p.archive(buf)
+        ev.append(("archive_bytes_extended", phase, hashlib.sha256(buf.getvalue()).hexdigest(), len(buf.getvalue())))
     return ev
 
 
